@@ -1,2 +1,164 @@
--- driver stub (not built yet)
-def main : IO Unit := pure ()
+/-
+C11 driver (stateful): keeps the model container `c` (field-for-field `FastOps`) and,
+independently, the naive slot array `s`.  `new`/`install` lines reset both; every other line is one
+public mutation, replayed through `applyC` on `c` and through `applyA` on `s`.
+Answer per line (12 tokens): the model's private pointer tables (T1–T6, from `c`), every getter
+computed by DIRECT SCANS of `s` (T7–T10), the cursor produced by the model's `fill_args_at_p`
+walk on `c` at the queried positions (T11), and `inv1` iff `c = canon (abs c)`, `abs c = s` and
+every queried cursor equals the scan cursor (T12).
+-/
+import QmcModel.Proto
+import QmcModel.Basic
+import QmcModel.FastOps
+open Qmc Qmc.Proto
+
+structure St where
+  c : FastOps
+  s : Slots
+
+def optNat : Option Nat → String
+  | some x => toString x
+  | none => "_"
+
+def optRel : Option PRel → String
+  | some r => s!"{r.p}.{r.relv}"
+  | none => "_"
+
+def joinOr (sep : String) (xs : List String) : String :=
+  if xs.isEmpty then "-" else String.intercalate sep xs
+
+def showNode (p : Nat) (prev next : Option Nat) (prevs nexts : List (Option PRel)) : String :=
+  s!"{p}/{optNat prev}/{optNat next}/{joinOr ";" (prevs.map optRel)}/{joinOr ";" (nexts.map optRel)}"
+
+def parseAct (tok : String) : Option (Option Op) :=
+  if tok == "k" then none
+  else if tok == "r" then some none
+  else some (parseOp tok)
+
+def parseActs (tok : String) : List (Option (Option Op)) :=
+  if tok == "-" || tok == "" then [] else (tok.splitOn "+").map parseAct
+
+def parseQ (tok : String) : List Nat :=
+  match tok.splitOn "=" with
+  | [_, l] => parseNats l
+  | _ => []
+
+def showCursor (p : Nat) (a : Cursor) : String :=
+  let items := (a.lastVars.zip a.lastRels).map fun (lv, lr) =>
+    match lv, lr with
+    | none, none => "_"
+    | _, _ => s!"{optNat lv}.{optNat lr}"
+  s!"{p}/{optNat a.lastP}/{joinOr "," items}/{a.unfilled}"
+
+def describe (st : St) (qs : List Nat) : String :=
+  let c := st.c
+  let s := st.s
+  let nv := c.varEnds.length
+  let nb := c.bondCounters.map List.length
+  let L := s.length
+  -- T1–T6: the model container's private fields
+  let t1 := showSlots c.abs
+  let t2 := s!"n{c.n}"
+  let t3 := match c.pEnds with | some (h, t) => s!"pe:{h}.{t}" | none => "pe:_"
+  let t4 := "ve:" ++ joinOr "," (c.varEnds.map fun e =>
+    match e with
+    | some (h, t) => s!"{h.p}.{h.relv}.{t.p}.{t.relv}"
+    | none => "_")
+  let t5 := match c.bondCounters with
+    | none => "bc:N"
+    | some l => "bc:" ++ joinOr "," (l.map toString)
+  let t6 := "nd:" ++ joinOr "+" (c.ops.zipIdx.filterMap fun (o, p) =>
+    o.map fun nd => showNode p nd.previousP nd.nextP nd.previousForVars nd.nextForVars)
+  -- T7–T10: getters by direct scans of the naive slot array
+  let counts := (List.range 8).map fun b => toString (countBond s b)
+  let t7 := s!"g:{countOps s}/{optNat (firstOcc (occ s) L)}/{optNat (lastOcc (occ s) L)}/{String.intercalate "," counts}"
+  let t8 := "gv:" ++ joinOr "," ((List.range nv).map fun v =>
+    let has := (List.range L).any (occV s v)
+    s!"{optRel (firstRel s v)}/{optRel (lastRel s v)}/{showBool has}")
+  let t9 := "gn:" ++ joinOr "+" ((List.range L).filterMap fun q =>
+    (slotAt s q).map fun op =>
+      showNode q (prevOcc (occ s) q) (nextOcc (occ s) L q)
+        (op.vars.map fun v => prevRel s v q) (op.vars.map fun v => nextRel s v q))
+  let t10 := "nth:" ++ joinOr "," ((occPositions s).map toString)
+  -- T11: the model's cursor walk
+  let curs := qs.map fun p => (p, c.fillArgsAtP p c.getEmptyArgsAll)
+  let t11 := "cu:" ++ joinOr "+" (curs.map fun (p, a) => showCursor p a)
+  -- T12
+  let okCanon := decide (c = canon nv nb c.abs)
+  let okAbs := decide (c.abs = s)
+  let okCur := curs.all fun (p, a) => decide (a = cursorByScan nv s p a.unfilled)
+  let t12 := if okCanon && okAbs && okCur then "inv1"
+    else s!"inv0[canon={okCanon},abs={okAbs},cursor={okCur}]"
+  String.intercalate " " [t1, t2, t3, t4, t5, t6, t7, t8, t9, t10, t11, t12]
+
+def occupiedList (s : Slots) : List (Nat × Op) :=
+  s.zipIdx.filterMap fun (o, p) => o.map fun op => (p, op)
+
+/-- naive sub-variable `mutate_subsection_ops`: occupied slots in `ps..=pe` sharing a variable with `vars` -/
+def subOpsA (s : Slots) (vars : List Nat) (ps pe : Nat) (acts : List (Option (Option Op))) : Slots :=
+  let s := growA s pe
+  (List.range' ps (pe + 1 - ps)).foldl (fun s p =>
+    match slotAt s p with
+    | some op => if op.vars.any (vars.contains ·) then writeA s p (acts.getD (p - ps) none) else s
+    | none => s) s
+
+def stepSt (st : St) (toks : List String) : St :=
+  let nv := st.c.varEnds.length
+  let nb := st.c.bondCounters.map List.length
+  match toks with
+  | ["new", _, nvars, nbt, _] =>
+    let nb := if nbt == "-" then none else some (parseNat nbt)
+    { c := FastOps.new (parseNat nvars) nb, s := [] }
+  | ["install", _, nvars, slots, _] =>
+    let s := parseSlots slots
+    let l := occupiedList s
+    { c := FastOps.newFromOps (parseNat nvars) l, s := if l.isEmpty then [] else s }
+  | ["cutoff", _, k, _] =>
+    let m : Mut Nat := .setCutoff (parseNat k)
+    { c := applyC st.c m, s := applyA nv nb st.s m }
+  | ["set", _, p, act, _] =>
+    match parseAct act with
+    | some new =>
+      let m : Mut Nat := .setSlot (parseNat p) new
+      { c := applyC st.c m, s := applyA nv nb st.s m }
+    | none => st
+  | ["ps", _, ps, pe, acts, _] =>
+    let acts := parseActs acts
+    let m : Mut Nat := .sweep (parseNat ps) (parseNat pe) (fun _ _ i => (acts.getD i none, i + 1)) 0
+    { c := applyC st.c m, s := applyA nv nb st.s m }
+  | ["ops", _, ps, pe, acts, _] =>
+    let acts := parseActs acts
+    let ps := parseNat ps
+    let m : Mut Nat := .sweepOps ps (parseNat pe) (fun _ _ p t => (acts.getD (p - ps) none, t)) 0
+    { c := applyC st.c m, s := applyA nv nb st.s m }
+  | ["subps", _, vars, _hints, ps, pe, acts, _] =>
+    let acts := parseActs acts
+    let vars := parseNats vars
+    let ps := parseNat ps
+    let pe := parseNat pe
+    let a := st.c.fillArgsWithHintSpec ps (st.c.getEmptyArgsVarlist vars) vars
+    let c := (st.c.mutateSubsection ps pe (0 : Nat) (fun _ _ i => (acts.getD i none, i + 1)) (some a)).1
+    let m : Mut Nat := .sweep ps pe (fun _ _ i => (acts.getD i none, i + 1)) 0
+    { c := c, s := applyA nv nb st.s m }
+  | ["subops", _, vars, _hints, ps, pe, acts, _] =>
+    let acts := parseActs acts
+    let vars := parseNats vars
+    let ps := parseNat ps
+    let pe := parseNat pe
+    let a := st.c.fillArgsWithHintSpec ps (st.c.getEmptyArgsVarlist vars) vars
+    let c := (st.c.mutateSubsectionOps ps pe (0 : Nat) (fun _ _ p t => (acts.getD (p - ps) none, t)) (some a)).1
+    { c := c, s := subOpsA st.s vars ps pe acts }
+  | _ => st
+
+partial def loop (h : IO.FS.Stream) (st : St) : IO Unit := do
+  let line ← h.getLine
+  if line.isEmpty then return ()
+  let toks := tokens line
+  let st' := stepSt st toks
+  let qs := match toks.getLast? with | some q => parseQ q | none => []
+  IO.println (describe st' qs)
+  loop h st'
+
+def main : IO Unit := do
+  let stdin ← IO.getStdin
+  loop stdin { c := FastOps.new 0 none, s := [] }
